@@ -2,7 +2,6 @@ package main
 
 import (
 	"fmt"
-	"regexp"
 	"strconv"
 	"strings"
 
@@ -50,8 +49,6 @@ func init() {
 		},
 	})
 }
-
-var capWireRe = regexp.MustCompile(`max_response_bytes \((\d+) > (\d+)\)`)
 
 func c16Exec(c *Case) {
 	var e *streamEnv
